@@ -25,6 +25,19 @@ pub fn t3() -> Op {
     Op::CreateTable { name: "T3".into(), cols: vec![ColSpec::new("K", Ty::Str(8)).key().nullable()] }
 }
 
+/// Attributes that do not belong to the column's type: a value range on a
+/// string column, an enumeration and a category on an integer column.
+pub fn t4() -> Op {
+    Op::CreateTable {
+        name: "T4".into(),
+        cols: vec![
+            ColSpec::new("K", Ty::I16).key(),
+            ColSpec::new("R", Ty::Str(8)).nullable().range(0, 9),
+            ColSpec::new("E", Ty::I16).nullable().enums(&["1", "2"]).category("Integer"),
+        ],
+    }
+}
+
 fn i(n: i32) -> Val {
     Val::Int(n)
 }
@@ -44,47 +57,89 @@ fn del(t: &str, cond: Option<E>) -> Op {
     Op::Delete { table: t.into(), cond }
 }
 
-/// DML alphabet A03, simplest first.
-pub fn a03(tier: Tier) -> Vec<Op> {
-    let mut a = vec![
+/// DML alphabets, simplest first.  One big alphabet explored deeply wastes
+/// its budget on interleavings of operations on unrelated tables, so the DML
+/// space is covered by several explorations: all operations together to a
+/// moderate depth, and one focused alphabet per table (or table pair) deeper.
+pub fn dml_explorations(tier: Tier) -> Vec<(&'static str, Vec<Op>, usize)> {
+    let t = tier.thorough();
+    let t1_ops = vec![
         t1(),
         ins("T1", vec![vec![i(1), s("a")]]),
         ins("T1", vec![vec![i(2), Val::Null]]),
         Op::Reopen,
         del("T1", Some(eq("K", i(1)))),
         upd("T1", vec![("S", s("b"))], Some(eq("K", i(1)))),
-        t2(),
-        ins("T2", vec![vec![s("a"), i(1), s("x")]]),
         ins("T1", vec![vec![i(3), s("b")], vec![i(1), s("aa")]]),
         upd("T1", vec![("S", Val::Null)], None),
         upd("T1", vec![("K", i(2))], Some(eq("K", i(1)))),
         upd("T1", vec![("K", i(5))], None),
         del("T1", None),
-        ins("T2", vec![vec![s("b"), Val::Null, s("a")]]),
-        del("T2", Some(eq("A", s("a")))),
         Op::DropTable { name: "T1".into() },
         del("T1", Some(E::bin(Bin::Or, E::bin(Bin::Lt, E::col("K"), E::int(2)), eq("S", s("b"))))),
         upd("T1", vec![("K", i(0))], Some(eq("S", s("a")))),
         ins("T1", vec![vec![i(3), s("")]]),
-        upd("T2", vec![("C", s("a")), ("B", i(2))], Some(eq("B", Val::Null))),
+        // the same column assigned twice (the last assignment wins)
+        upd("T1", vec![("K", i(7)), ("K", i(1))], Some(eq("K", i(2)))),
+        upd("T1", vec![("K", i(1)), ("K", i(7))], Some(eq("K", i(2)))),
+        // the empty string through update
+        upd("T1", vec![("S", s(""))], Some(eq("K", i(1)))),
     ];
-    if tier.thorough() {
-        a.extend(vec![
-            t3(),
-            ins("T3", vec![vec![Val::Null]]),
-            ins("T3", vec![vec![s("a")], vec![s("B")]]),
-            ins("T3", vec![vec![s("")]]),
-            upd("T3", vec![("K", s("a"))], Some(eq("K", Val::Null))),
-            upd("T3", vec![("K", s("0"))], Some(E::un(Un::Not, eq("K", s("a"))))),
-            del("T3", Some(E::col("K"))),
-            Op::DropReopen,
-            Op::Flush,
-            Op::DropTable { name: "T2".into() },
-            upd("T2", vec![("A", s("a"))], None),
-            del("T2", Some(E::un(Un::Not, eq("B", i(1))))),
-        ]);
-    }
-    a
+    let t2_ops = vec![
+        t2(),
+        ins("T2", vec![vec![s("a"), i(1), s("x")]]),
+        ins("T2", vec![vec![s("b"), Val::Null, s("a")]]),
+        del("T2", Some(eq("A", s("a")))),
+        upd("T2", vec![("C", s("a")), ("B", i(2))], Some(eq("B", Val::Null))),
+        upd("T2", vec![("A", s("a"))], None),
+        del("T2", Some(E::un(Un::Not, eq("B", i(1))))),
+        Op::DropTable { name: "T2".into() },
+        // a second table sharing the string "a"
+        t1(),
+        ins("T1", vec![vec![i(1), s("a")]]),
+        Op::DropTable { name: "T1".into() },
+        Op::Reopen,
+    ];
+    let t3_ops = vec![
+        t3(),
+        ins("T3", vec![vec![Val::Null]]),
+        ins("T3", vec![vec![s("")]]),
+        ins("T3", vec![vec![s("b")], vec![s("")]]),
+        ins("T3", vec![vec![s("a")], vec![s("B")]]),
+        ins("T3", vec![vec![s("")], vec![Val::Null]]),
+        upd("T3", vec![("K", s(""))], Some(eq("K", s("b")))),
+        upd("T3", vec![("K", s("a"))], Some(eq("K", Val::Null))),
+        upd("T3", vec![("K", s("0"))], Some(E::un(Un::Not, eq("K", s("a"))))),
+        del("T3", Some(E::col("K"))),
+        del("T3", Some(eq("K", Val::Null))),
+        Op::Reopen,
+    ];
+    let t4_ops = vec![
+        t4(),
+        ins("T4", vec![vec![i(1), s("r"), i(1)], vec![i(2), Val::Null, Val::Null]]),
+        ins("T4", vec![vec![i(3), s(""), i(2)]]),
+        upd("T4", vec![("R", s("q")), ("E", i(2))], Some(eq("E", Val::Null))),
+        upd("T4", vec![("K", i(9))], Some(eq("R", s("r")))),
+        del("T4", Some(eq("E", i(1)))),
+        Op::DropTable { name: "T4".into() },
+        Op::Reopen,
+        Op::DropReopen,
+        Op::Flush,
+    ];
+    let mut mix: Vec<Op> = Vec::new();
+    mix.extend(t1_ops.iter().take(12).cloned());
+    mix.extend(t2_ops.iter().take(5).cloned());
+    mix.extend(t3_ops.iter().take(3).cloned());
+    mix.extend(t4_ops.iter().take(2).cloned());
+    mix.push(Op::DropReopen);
+    mix.push(Op::Flush);
+    vec![
+        ("all-tables", mix, if t { 7 } else { 6 }),
+        ("T1", t1_ops, if t { 9 } else { 7 }),
+        ("T2+T1", t2_ops, if t { 9 } else { 7 }),
+        ("T3-nullable-string-key", t3_ops, if t { 9 } else { 7 }),
+        ("T4-cross-type-attributes", t4_ops, if t { 9 } else { 7 }),
+    ]
 }
 
 /// Invalid-call menu (C04): every failure kind the API documents.
@@ -138,6 +193,14 @@ pub fn invalid_menu() -> Vec<Op> {
         ins("T1", vec![vec![i(7), s("new1")], vec![i(8), s("new2")], vec![i(7), s("new3")]]),
         ins("T1", vec![vec![i(7), s("new1")], vec![i(1), s("dup-of-existing-when-1-exists")]]),
         ins("T1", vec![vec![i(1), s("z")], vec![i(1), s("z")]]),
+        // a value of the wrong kind that lies inside a range / enumeration declared
+        // on a column of the other kind
+        ins("T4", vec![vec![i(5), i(5), Val::Null]]),
+        ins("T4", vec![vec![i(5), Val::Null, s("1")]]),
+        ins("T4", vec![vec![i(5), s("ok"), i(2)], vec![i(6), i(3), Val::Null]]),
+        upd("T4", vec![("R", i(5))], None),
+        upd("T4", vec![("E", s("1"))], None),
+        upd("T4", vec![("E", i(1)), ("R", i(0))], Some(eq("K", i(1)))),
         ins("T2", vec![vec![s("abcde"), i(1), Val::Null]]),
         ins("T2", vec![vec![s("k"), i(i32::MIN), Val::Null]]),
         // update
@@ -176,82 +239,114 @@ fn e1_common(rep: &mut Report) {
     rep.assume("states behind a reported violation are not expanded");
 }
 
-fn finish_e1(cfg: &Config, mut rep: Report, rule: &str) -> i32 {
-    let mut cfg2 = Config { seed: cfg.seed.clone(), setup: cfg.setup.clone(), alphabet: cfg.alphabet.clone(), probes: cfg.probes.clone(), stream_names: cfg.stream_names.clone(), ..*cfg };
-    if let Ok(d) = std::env::var("MSIMC_DEPTH") {
-        cfg2.max_depth = d.parse().expect("MSIMC_DEPTH");
+fn finish_e1(cfg: &Config, rep: Report, rule: &str) -> i32 {
+    let c = Config { seed: cfg.seed.clone(), setup: cfg.setup.clone(), alphabet: cfg.alphabet.clone(), probes: cfg.probes.clone(), stream_names: cfg.stream_names.clone(), ..*cfg };
+    finish_e1_multi(vec![("single".to_string(), c)], rep, rule)
+}
+
+/// Runs several explorations (one per alphabet) and reports their sum.
+fn finish_e1_multi(cfgs: Vec<(String, Config)>, mut rep: Report, rule: &str) -> i32 {
+    let mut total_states = 0u64;
+    let mut total_transitions = 0u64;
+    let mut details = Vec::new();
+    let mut any_cap = false;
+    let mut audit_fail = 0u64;
+    let mut min_depth = usize::MAX;
+    for (label, mut cfg) in cfgs {
+        if let Ok(d) = std::env::var("MSIMC_DEPTH") {
+            cfg.max_depth = d.parse().expect("MSIMC_DEPTH");
+        }
+        let st = explore(&cfg, &mut rep);
+        fill_report(&cfg, &st, &mut rep);
+        total_states += st.states;
+        total_transitions += st.transitions + st.probes;
+        any_cap |= st.cap_hit;
+        audit_fail += st.merge_audit_failures + st.nodedup_keys_missing;
+        min_depth = min_depth.min(st.max_depth_completed);
+        details.push(serde_json::json!({
+            "alphabet": label,
+            "operations": cfg.alphabet.len(),
+            "max_depth_completed": st.max_depth_completed,
+            "states": st.states,
+            "states_per_depth": st.per_depth,
+            "transitions": st.transitions,
+            "probe_calls": st.probes,
+            "ok_transitions": st.ok_transitions,
+            "err_transitions": st.err_transitions,
+            "distinct_outcomes": st.distinct_outcomes,
+            "select_queries": st.selects,
+            "merge_audits": st.merge_audits,
+            "nodedup_sequences": st.nodedup_sequences,
+            "cap_hit": st.cap_hit,
+        }));
     }
-    let cfg = &cfg2;
-    let st = explore(cfg, &mut rep);
-    fill_report(cfg, &st, &mut rep);
+    if details.len() > 1 {
+        rep.set("explorations", serde_json::Value::Array(details));
+        rep.set("states", total_states);
+        rep.set("transitions", total_transitions);
+        rep.set("traces_validated_against_impl", total_transitions);
+        rep.set("evaluations", total_transitions);
+        rep.set("distinct_nontrivial", total_states);
+        rep.set("max_depth_completed", min_depth);
+        rep.set("caps_hit", any_cap);
+        rep.set("exhaustive", !any_cap);
+    }
     rep.set("rule", rule.to_string());
-    if st.merge_audit_failures > 0 || st.nodedup_keys_missing > 0 {
-        eprintln!("MACHINERY: state key audit failed ({} merge audits, {} keys missing)", st.merge_audit_failures, st.nodedup_keys_missing);
+    if audit_fail > 0 {
+        eprintln!("MACHINERY: state key audit failed");
         let _ = rep.finish();
         return 2;
     }
     rep.finish()
 }
 
+fn dml_configs(tier: Tier, property: &'static str, monitors: Monitors, probes: Vec<Op>, audits: bool, depth_delta: isize) -> Vec<(String, Config)> {
+    dml_explorations(tier)
+        .into_iter()
+        .map(|(label, alphabet, depth)| {
+            (
+                label.to_string(),
+                Config {
+                    property,
+                    seed: None,
+                    ptype: 0,
+                    setup: vec![],
+                    alphabet,
+                    probes: probes.clone(),
+                    stream_names: vec![],
+                    max_depth: (depth as isize + depth_delta).max(2) as usize,
+                    wall_cap: Duration::from_secs(if tier.thorough() { 600 } else { 40 }),
+                    monitors,
+                    merge_audits: if audits { if tier.thorough() { 200 } else { 20 } } else { 0 },
+                    nodedup_depth: if audits { if tier.thorough() { 3 } else { 2 } } else { 0 },
+                },
+            )
+        })
+        .collect()
+}
+
 pub fn run_c03(tier: Tier) -> i32 {
     let mut rep = Report::new("C03", tier, "model_checking");
     e1_common(&mut rep);
-    let cfg = Config {
-        property: "C03",
-        seed: None,
-        ptype: 0,
-        setup: vec![],
-        alphabet: a03(tier),
-        probes: vec![],
-        stream_names: vec![],
-        max_depth: if tier.thorough() { 10 } else { 8 },
-        wall_cap: Duration::from_secs(if tier.thorough() { 900 } else { 60 }),
-        monitors: Monitors { model: true, selects: true, ..Monitors::default() },
-        merge_audits: if tier.thorough() { 400 } else { 40 },
-        nodedup_depth: if tier.thorough() { 3 } else { 2 },
-    };
-    finish_e1(&cfg, rep, "all sequences over the DML alphabet up to the completed depth on the real Package; after every transition the full snapshot (all tables incl. catalog, streams, summary) is compared with the relational model; every distinct state runs the select battery (conditions x projections, order, length, Row indexing). distinct_nontrivial = distinct states")
+    let cfgs = dml_configs(tier, "C03", Monitors { model: true, selects: true, ..Monitors::default() }, vec![], true, 0);
+    let (calls, _) = crate::c03e2::run(tier, &mut rep);
+    rep.set("conditions_as_programs_evaluations", calls);
+    finish_e1_multi(cfgs, rep, "second part (conditions as programs): every table content of <= 2 (thorough 3) rows over K in 1..3, A in {null,0,1,2}, S in {null,'a'} x every expression of depth <= 1 over {K,A,S,null,0,1,2,'','a'} and all 20 operators that mentions a column (+3 depth-2 shapes) as WHERE of select (all contents), delete and update (contents of <= 1 (3) rows) vs the reference filter. First part: five explorations (all tables together; T1; T2+T1 sharing strings; T3 with a nullable string key; T4 with attributes foreign to the column type), each all sequences over its alphabet up to its completed depth on the real Package; after every transition the full snapshot (all tables incl. catalog, streams, summary) is compared with the relational model; every distinct state runs the select battery (conditions x projections, order, length, Row indexing). distinct_nontrivial = distinct states")
 }
 
 pub fn run_c05(tier: Tier) -> i32 {
     let mut rep = Report::new("C05", tier, "model_checking");
     e1_common(&mut rep);
-    let cfg = Config {
-        property: "C05",
-        seed: None,
-        ptype: 0,
-        setup: vec![],
-        alphabet: a03(tier),
-        probes: vec![],
-        stream_names: vec![],
-        max_depth: if tier.thorough() { 10 } else { 8 },
-        wall_cap: Duration::from_secs(if tier.thorough() { 900 } else { 40 }),
-        monitors: Monitors { invariants: true, ..Monitors::default() },
-        merge_audits: 0,
-        nodedup_depth: 0,
-    };
-    finish_e1(&cfg, rep, "invariant monitor (strictly ascending key tuples, every cell valid for its column) on every state of the DML exploration, live and again after save + reopen. distinct_nontrivial = distinct states")
+    let cfgs = dml_configs(tier, "C05", Monitors { invariants: true, ..Monitors::default() }, vec![], false, 0);
+    finish_e1_multi(cfgs, rep, "invariant monitor (strictly ascending key tuples, every cell valid for its column) on every state of the DML exploration, live and again after save + reopen. distinct_nontrivial = distinct states")
 }
 
 pub fn run_c04(tier: Tier) -> i32 {
     let mut rep = Report::new("C04", tier, "model_checking");
     e1_common(&mut rep);
     let menu = invalid_menu();
-    let cfg = Config {
-        property: "C04",
-        seed: None,
-        ptype: 0,
-        setup: vec![],
-        alphabet: a03(tier),
-        probes: menu,
-        stream_names: vec![],
-        max_depth: if tier.thorough() { 7 } else { 5 },
-        wall_cap: Duration::from_secs(if tier.thorough() { 900 } else { 60 }),
-        monitors: Monitors { unchanged_on_err: true, ..Monitors::default() },
-        merge_audits: 0,
-        nodedup_depth: 0,
-    };
-    finish_e1(&cfg, rep, "every state of the DML exploration x the invalid-call menu (names, arity, values in first/middle/last row, duplicate keys, unknown columns, late create-table failures, stream calls); for every call that returns an error: snapshot equal before/after and equal after save + reopen; rejected alphabet operations are checked the same way. distinct_nontrivial = distinct states")
+    let cfgs = dml_configs(tier, "C04", Monitors { unchanged_on_err: true, ..Monitors::default() }, menu, false, if tier.thorough() { -1 } else { -2 });
+    finish_e1_multi(cfgs, rep, "every state of the five DML explorations x the invalid-call menu (names, arity, values in first/middle/last row, duplicate keys, unknown columns, late create-table failures, stream calls); for every call that returns an error: snapshot equal before/after and equal after save + reopen; rejected alphabet operations are checked the same way. distinct_nontrivial = distinct states")
 }
 
 pub fn run_c01(tier: Tier) -> i32 {
@@ -268,6 +363,7 @@ pub fn run_c01(tier: Tier) -> i32 {
         ins("T2", vec![vec![s("a"), i(2147483647), s("aa")], vec![s("b"), i(-2147483647), s("a")]]),
         ins("T1", vec![vec![i(32767), Val::Null], vec![i(-32767), s("\u{e9}t\u{e9}")]]),
         upd("T1", vec![("S", s("b"))], None),
+        upd("T1", vec![("S", s(""))], Some(eq("K", i(1)))),
         del("T1", Some(eq("K", i(1)))),
         Op::WriteStream { name: "s1".into(), len: 3, seed: 1 },
         Op::WriteStream { name: "Big".into(), len: big, seed: 7 },
@@ -308,37 +404,37 @@ pub fn run_c01(tier: Tier) -> i32 {
         merge_audits: if tier.thorough() { 200 } else { 0 },
         nodedup_depth: 0,
     };
-    finish_e1(&cfg, rep, "all sequences over tables/rows/streams/summary/code-page operations up to the completed depth; every distinct state is closed in all three ways (flush with the bytes copied while the package is alive = crash right after a successful flush; into_inner; drop), reopened and compared with the observation before closing (\"\" == null), then saved and reopened again without change. The configuration product (package types x code pages x string classes) is the second part of this check. distinct_nontrivial = distinct states")
+    let ncfg = c01_config_product(tier, &mut rep);
+    rep.set("configuration_product_histories", ncfg);
+    rep.set("configuration_product_closes", ncfg * 3);
+    finish_e1(&cfg, rep, "all sequences over tables/rows/streams/summary/code-page operations up to the completed depth; every distinct state is closed in all three ways (flush with the bytes copied while the package is alive = crash right after a successful flush; into_inner; drop), reopened and compared with the observation before closing (\"\" == null), then saved and reopened again without change. Second part, the configuration product: 3 package types x 26 code pages (database and summary) x string classes from that page's repertoire (ASCII, empty, > 64 KiB, non-ASCII single-byte, multi-byte, > 64 KiB multi-byte, strings whose bytes begin like a byte-order mark) x integer boundaries +-32767 / +-2147483647, one history each, closed three ways, decoded independently and reopened. distinct_nontrivial = distinct states")
 }
 
 pub fn run_c08(tier: Tier) -> i32 {
     let mut rep = Report::new("C08", tier, "model_checking");
     e1_common(&mut rep);
     rep.assume("independent decoder: mc/msimc/src/dec.rs, written from the format description in DESIGN.md appendix A");
-    let mut alphabet = a03(tier);
+    let mut cfgs = dml_configs(tier, "C08", Monitors { wellformed: true, ..Monitors::default() }, vec![], false, 0);
     // strings referenced from two user tables and from the catalog at once,
     // drop of tables that still hold rows, slot reuse
-    alphabet.extend(vec![
+    let sharing = vec![
+        t1(),
+        t2(),
         ins("T1", vec![vec![i(4), s("T2")], vec![i(6), s("K")]]),
         ins("T2", vec![vec![s("T1"), i(3), s("T2")]]),
+        ins("T1", vec![vec![i(1), s("a")]]),
+        ins("T2", vec![vec![s("a"), i(1), s("a")]]),
         Op::DropTable { name: "T2".into() },
+        Op::DropTable { name: "T1".into() },
         ins("T1", vec![vec![i(7), s("fresh")]]),
-    ]);
-    let cfg = Config {
-        property: "C08",
-        seed: None,
-        ptype: 0,
-        setup: vec![],
-        alphabet,
-        probes: vec![],
-        stream_names: vec![],
-        max_depth: if tier.thorough() { 9 } else { 6 },
-        wall_cap: Duration::from_secs(if tier.thorough() { 900 } else { 60 }),
-        monitors: Monitors { wellformed: true, ..Monitors::default() },
-        merge_audits: 0,
-        nodedup_depth: 0,
-    };
-    finish_e1(&cfg, rep, "the bytes saved after every prefix of every explored sequence, in all three close modes, are decoded by the independent decoder: whole rows of the dictated widths, offset-binary integers, live references, catalog = existing tables with columns 1..n, refcount(entry) = referring cells in all tables, unused entries empty, no live empty entry; decoded rows = model rows. distinct_nontrivial = distinct states")
+        del("T1", Some(eq("K", i(4)))),
+        upd("T1", vec![("S", s("T1"))], None),
+        del("T2", None),
+        Op::Reopen,
+    ];
+    let template = Config { alphabet: sharing, max_depth: if tier.thorough() { 9 } else { 6 }, seed: None, setup: vec![], probes: vec![], stream_names: vec![], ..cfgs[0].1 };
+    cfgs.push(("catalog-and-cross-table-string-sharing".to_string(), template));
+    finish_e1_multi(cfgs, rep, "the bytes saved after every prefix of every explored sequence, in all three close modes, are decoded by the independent decoder: whole rows of the dictated widths, offset-binary integers, live references, catalog = existing tables with columns 1..n, refcount(entry) = referring cells in all tables, unused entries empty, no live empty entry; decoded rows = model rows. distinct_nontrivial = distinct states")
 }
 
 // ------------------------------------------------------------------------- //
@@ -562,4 +658,105 @@ pub fn signed_seed() -> Vec<u8> {
     comp.create_stream("\u{5}MsiDigitalSignatureEx").expect("sigex").write_all(b"signature-ex").expect("w");
     comp.flush().expect("flush");
     comp.into_inner().into_inner()
+}
+
+// ------------------------------------------------------------------------- //
+// C01 — configuration product (E2): package types x code pages x string
+// classes x integer boundaries, each a one-table history closed three ways.
+// ------------------------------------------------------------------------- //
+
+fn c01_strings(cp: i32) -> Vec<(&'static str, String)> {
+    let rt = |s: &str| crate::c14::ref_decode(cp, &crate::c14::ref_encode(cp, s)) == s;
+    let mut out: Vec<(&'static str, String)> = vec![("ascii", "plain".into()), ("empty", "".into()), ("over-64KiB", "L".repeat(70000))];
+    let cands = ['\u{e9}', '\u{416}', '\u{3a9}', '\u{142}', '\u{5d0}', '\u{627}', '\u{e01}', '\u{20ac}', '\u{3042}', '\u{4e2d}', '\u{d55c}', '\u{ff76}'];
+    let mut one = false;
+    let mut two = false;
+    for c in cands {
+        let s = c.to_string();
+        if !rt(&s) {
+            continue;
+        }
+        let n = crate::c14::ref_encode(cp, &s).len();
+        if n == 1 && !one {
+            one = true;
+            out.push(("non-ascii-1-byte", format!("a{}b{}", c, c)));
+        } else if n >= 2 && !two {
+            two = true;
+            out.push(("multi-byte", format!("{}x{}{}", c, c, c)));
+            out.push(("over-64KiB-multi-byte", format!("{}", s.repeat(33000))));
+        }
+    }
+    // strings whose encoding begins with bytes that look like a byte-order mark
+    for (label, s) in [("bom-char-prefix", "\u{feff}abc"), ("ff-fe-prefix", "\u{ff}\u{fe}ab"), ("fe-ff-prefix", "\u{fe}\u{ff}ab"), ("ef-bb-bf-prefix", "\u{ef}\u{bb}\u{bf}ab")] {
+        if rt(s) {
+            out.push((label, s.to_string()));
+        }
+    }
+    out
+}
+
+pub fn c01_config_product(tier: Tier, rep: &mut Report) -> u64 {
+    use rayon::prelude::*;
+    let pages: Vec<i32> = crate::c14::PAGES.iter().map(|p| p.0).collect();
+    let mut cases: Vec<(u8, i32, &'static str, String)> = Vec::new();
+    for ptype in 0..3u8 {
+        for cp in &pages {
+            for (label, s) in c01_strings(*cp) {
+                if label.starts_with("over-64KiB") && !(tier.thorough() || ptype == 0) {
+                    continue;
+                }
+                cases.push((ptype, *cp, label, s));
+            }
+        }
+    }
+    let results: Vec<Vec<crate::report::Violation>> = cases
+        .par_iter()
+        .map(|(ptype, cp, _label, s)| {
+            let cfg = Config {
+                property: "C01",
+                seed: None,
+                ptype: *ptype,
+                setup: vec![],
+                alphabet: vec![],
+                probes: vec![],
+                stream_names: vec![],
+                max_depth: 0,
+                wall_cap: Duration::from_secs(60),
+                monitors: Monitors { model: true, roundtrip: true, wellformed: true, invariants: true, ..Monitors::default() },
+                merge_audits: 0,
+                nodedup_depth: 0,
+            };
+            let fr = crate::e1::fresh(*ptype);
+            let ops = vec![
+                Op::SetDbCodepage(*cp),
+                Op::Summary(SumOp::SetCodepage(*cp)),
+                Op::CreateTable {
+                    name: "X".into(),
+                    cols: vec![ColSpec::new("K", Ty::I16).key(), ColSpec::new("I", Ty::I32).nullable(), ColSpec::new("S", Ty::Str(0)).nullable(), ColSpec::new("T", Ty::Str(0)).nullable().localizable()],
+                },
+                ins(
+                    "X",
+                    vec![
+                        vec![i(-32767), i(-2147483647), Val::Str(s.clone()), Val::Str(s.clone())],
+                        vec![i(-1), i(1), Val::Null, Val::Str(s.clone())],
+                        vec![i(1), i(-1), Val::Str(s.clone()), Val::Null],
+                        vec![i(32767), i(2147483647), Val::s("other"), Val::s("X")],
+                    ],
+                ),
+                Op::Summary(SumOp::SetAuthor(if s.len() > 1000 { "long".into() } else { s.clone() })),
+                Op::Summary(SumOp::SetComments(if s.len() > 1000 { s[..s.char_indices().nth(300).map(|x| x.0).unwrap_or(s.len())].to_string() } else { format!("{}{}", s, s) })),
+                Op::WriteStream { name: "S".into(), len: 10, seed: 1 },
+            ];
+            crate::e1::linear_history_checks(&cfg, &fr, &ops)
+        })
+        .collect();
+    let n = cases.len() as u64;
+    for (c, vs) in cases.iter().zip(results.into_iter()) {
+        for mut v in vs {
+            v.signature = format!("config:{}:{}", c.2, v.signature);
+            v.detail = format!("[package type {} code page {} string class {}] {}", c.0, c.1, c.2, v.detail.chars().take(1500).collect::<String>());
+            rep.violations.push(v);
+        }
+    }
+    n
 }
